@@ -1315,7 +1315,13 @@ private:
         if (allow_multimapping) {
             // TODO: consider reimplementing the internal_equal_range with elements counting to avoid std::distance
             auto eq_range = equal_range(key);
-            return std::distance(eq_range.first, eq_range.second);
+            // Elements with other keys can be inserted in front of the end of the range concurrently:
+            // count the equivalent elements only
+            size_type count = 0;
+            for (auto it = eq_range.first; it != eq_range.second && my_hash_compare(traits_type::get_key(*it), key); ++it) {
+                ++count;
+            }
+            return count;
         } else {
             return contains(key) ? 1 : 0;
         }
